@@ -388,7 +388,19 @@ func runC31(uc *UnitCase, tape *Tape) *RunOutcome {
 			for _, r := range recs {
 				hs = append(hs, fmt.Sprintf("t%d %s(%s%s%s %s)[%d,%d]->%s", r.task, r.op.Op, r.op.Client, r.op.Filter, r.op.Topic, r.op.Payload, r.call, r.ret, r.out))
 			}
-			if res2 == porcupine.Ok {
+			// A relaxation that happens to admit the history does not name its cause. If the mutations alone (with
+			// their return values) are linearizable under the strict model and every scan keeps the weak iteration
+			// guarantee, the only defect is that a scan is not an atomic snapshot, whatever else would also explain it
+			// (a relaxed Unsubscribe can be ordered before the Subscribe it overlaps, which hides the same anomaly).
+			var muts0 []porcupine.Operation
+			for _, po := range pops {
+				if k := po.Input.(UOp).Op; k != "subscribers" && k != "messages" {
+					muts0 = append(muts0, po)
+				}
+			}
+			if res2 == porcupine.Ok && overlap && porcupine.CheckOperationsTimeout(idxModel(false), muts0, 30*time.Second) == porcupine.Ok && len(weakScanViolations(recs)) == 0 {
+				o.Violations = append(o.Violations, viol("C31", "scan-not-atomic", "a scan concurrent with updates observed a state that never existed (each entry taken alone is explained): "+strings.Join(hs, " | "), -1, "scan", scanKinds(recs)))
+			} else if res2 == porcupine.Ok {
 				o.Violations = append(o.Violations, viol("C31", "unsubscribe-reports-existed-for-absent-subscription", "history is linearizable only if Unsubscribe may report 'existed' for a subscription that did not exist: "+strings.Join(hs, " | "), -1, "op", "unsub"))
 			} else if res2 == porcupine.Illegal {
 				conc := "sequential"
